@@ -521,8 +521,10 @@ Lemma phase_cmp_decision d tl t v : length v = length t ->
 Proof.
   intro Hl. unfold vector_phase_cmp, vector_span_cmp, same_length_vectors, validate_shape. simpl.
   rewrite !Z.eqb_refl. simpl. rewrite Hl, Z.eqb_refl. simpl.
-  unfold phase_decision. destruct (span_core tl (lstsq_spec [t] v) v) as [[|]|g mk|e] eqn:E; try reflexivity.
-  unfold span_core in E. destruct (norm_le tl 0 (norm2 v)); [discriminate|]. destruct (lstsq_spec [t] v); discriminate.
+  unfold phase_decision.
+  match goal with |- context [span_core ?a ?b ?c] => destruct (span_core a b c) as [[|]|g mk|e] eqn:E end; try reflexivity.
+  unfold span_core in E. destruct (norm_le tl 0 (norm2 v)); [discriminate|].
+  match type of E with context [lstsq_spec ?a ?b] => destruct (lstsq_spec a b); discriminate end.
 Qed.
 
 Lemma lincomb1 u t : veq (lincomb [u] [t]) (cvscale u t).
